@@ -373,6 +373,13 @@ impl<'a> Tr<'a> {
             let t = self.sub.fresh();
             return Ok(Out::pure("none".into(), Ty::Option(Box::new(t))));
         }
+        if segs.len() == 2 && self.generics.contains(&segs[0]) {
+            // `T::MAX_VAL`: an associated constant of a generic parameter becomes a parameter of the definition
+            if !self.abstract_consts.iter().any(|(c, _)| *c == last) {
+                self.abstract_consts.push((last.clone(), segs[0].clone()));
+            }
+            return Ok(Out::pure(lean_ident(&last), Ty::Param(segs[0].clone())));
+        }
         if segs.len() >= 2 {
             let tyname = &segs[segs.len() - 2];
             // integer associated constants
@@ -806,6 +813,21 @@ impl<'a> Tr<'a> {
             let mut pre = a.pre;
             pre.push(format!("let {} ← Rs.charFromU32Unchecked {}", t, a.term));
             return Ok(Out { pre, term: t, ty: Ty::Char, diverges: false });
+        }
+        // a callee that is a parameter of this definition (`abstract=`)
+        if segs.len() == 1 {
+            if let Some((ptys, rty)) = self.abstract_fns.get(&last).cloned() {
+                let mut pre = Vec::new();
+                let mut terms = Vec::new();
+                for (a, pt) in c.args.iter().zip(ptys.iter()) {
+                    let o = self.expr(a, Some(pt))?;
+                    pre.extend(o.pre);
+                    terms.push(o.term);
+                }
+                let t = self.fresh("t");
+                pre.push(format!("let {} ← Ctl.call ({} {})", t, lean_ident(&last), terms.join(" ")));
+                return Ok(Out { pre, term: t, ty: rty, diverges: false });
+            }
         }
         // registered function
         let quals: Vec<String> = segs[..segs.len().saturating_sub(1)].to_vec();
